@@ -887,6 +887,7 @@ pub struct Tracker {
     /// (latency ms, outcome, label); consumed one per announce, the last one repeats
     pub script: Vec<(u64, TrackerOutcome, String)>,
     pub announces: u64,
+    pub repeat_latency: u64,
 }
 
 impl Tracker {
@@ -899,7 +900,10 @@ impl Tracker {
         }
         let i = (n as usize).min(self.script.len() - 1);
         let (lat, out, _) = &self.script[i];
-        (n, *lat, out.clone())
+        // repeats of the last step (re-announces) cost at least `repeat_latency`: a client that
+        // re-announces in a tight loop would otherwise spin through virtual milliseconds
+        let lat = if n as usize >= self.script.len() { (*lat).max(self.repeat_latency) } else { *lat };
+        (n, lat, out.clone())
     }
 
     pub fn label(&self, n: u64) -> String {
